@@ -335,7 +335,9 @@ namespace AIToolbox::MDP {
             // Normalize
             for ( size_t s1 = 0; s1 < S; ++s1 ) {
                 const auto visits = experience_.getVisits(s, a, s1);
-                if (visits > 0)
+                // We also need to overwrite old non-zero entries (the initial
+                // identity, or values from before the experience was reset).
+                if (visits > 0 || transitions_[a].coeff(s, s1) != 0.0)
                     transitions_[a].coeffRef(s, s1) = static_cast<double>(visits) * visitSumReciprocal;
             }
         }
